@@ -229,6 +229,15 @@ pub fn pygen(out_path: &str, tier: Tier, seed: u64) -> i32 {
         if cfg.host == Hostility::InvalidStart && r.bool(0.4) {
             sc.problem.put_goal_on_start();
         }
+        // resolution fractions outside (0, 1]: the core stores values above 1 (and NaN) as 1;
+        // the binding must do exactly the same, not ignore or reject them
+        if r.bool(0.15) {
+            let f = *r.pick(&[2.5, 7.0, 1.0 + 1e-9, f64::NAN]);
+            for c in sc.problem.spec.comps.iter_mut() {
+                c.frac = Some(f);
+            }
+            sc.problem.tags.push("resolution-fraction-out-of-range".into());
+        }
         if !pythonise(&mut sc) {
             continue;
         }
